@@ -27,16 +27,14 @@ func c01Opts(thorough bool) []c01Opt {
 		{name: "a{0}", sh: c01MakeShape("{0}", []uint16{0}), enc: c01EncArray},
 		{name: "r{65535}", sh: c01MakeShape("{65535}", []uint16{65535}), enc: c01EncRun},
 		{name: "b{0,65535}", sh: c01MakeShape("{0,65535}", []uint16{0, 65535}), enc: c01EncBitmap},
-		{name: "rfull", sh: full, enc: c01EncRun},
+		{name: "r[65000..65535]", sh: c01MakeShape("[65000..65535]", c01Seq(536, func(i int) int { return 65000 + i })), enc: c01EncRun},
 		{name: "a{}", sh: c01MakeShape("{}", nil), enc: c01EncArray},
 		{name: "added-then-removed", nilLeft: true},
 	}
 	if thorough {
 		o = append(o,
-			c01Opt{name: "bfull", sh: full, enc: c01EncBitmap},
-			c01Opt{name: "r[1..65535]", sh: c01MakeShape("[1..65535]", c01Seq(65535, func(i int) int { return i + 1 })), enc: c01EncRun},
+			c01Opt{name: "rfull", sh: full, enc: c01EncRun},
 			c01Opt{name: "b[0..65534]", sh: c01MakeShape("[0..65534]", c01Seq(65535, func(i int) int { return i })), enc: c01EncBitmap},
-			c01Opt{name: "a{1,2,3,65534}", sh: c01MakeShape("{1,2,3,65534}", []uint16{1, 2, 3, 65534}), enc: c01EncArray},
 		)
 	}
 	return o
@@ -89,16 +87,41 @@ func c01MinimizeMulti(w *c01W, kind, prov int, items []c01Item, rd c01Read) []c0
 	return items
 }
 
-func c01MultiKeyDesc(items []c01Item) string {
+// c01MultiKeyDesc abstracts the reduced case for the finding key: per container only whether its slot
+// in the (slice) collection holds nil, an empty (N=0) container or a non-empty one; adjacency of
+// neighbouring keys is kept for Shift only (the carry crosses to the next key).
+func c01MultiKeyDesc(kind, prov int, items []c01Item, op string) (desc string, nilSlot bool) {
+	b := c01Build(kind, items, prov)
 	var p []string
-	for _, it := range items {
-		if it.nilLeft {
-			p = append(p, fmt.Sprintf("k%d:added-then-removed", it.key))
-		} else {
-			p = append(p, fmt.Sprintf("k%d:%s%s", it.key, c01EncName[it.enc], it.sh.name))
+	for i, it := range items {
+		if i > 0 && op == "Shift" {
+			if it.key == items[i-1].key+1 {
+				p = append(p, "next-key:")
+			} else {
+				p = append(p, "later-key:")
+			}
+		}
+		isNil := false
+		if b != nil {
+			if sc, ok := b.Containers.(*sliceContainers); ok {
+				if j := search64(sc.keys, it.key); j >= 0 && sc.containers[j] == nil {
+					isNil = true
+				}
+			}
+		}
+		switch {
+		case isNil:
+			p = append(p, "nil-slot")
+			nilSlot = true
+		case it.nilLeft:
+			p = append(p, "added-then-removed")
+		case len(it.sh.vals) == 0:
+			p = append(p, "empty-container")
+		default:
+			p = append(p, "nonempty")
 		}
 	}
-	return "[" + strings.Join(p, " ") + "]"
+	return "[" + strings.Join(p, " ") + "]", nilSlot
 }
 
 func c01MultiReads(c *vx.Check, keys []uint64, opts []c01Opt) {
@@ -107,7 +130,10 @@ func c01MultiReads(c *vx.Check, keys []uint64, opts []c01Opt) {
 	bounds := []uint64{0, 1 << 16, 2 << 16, 3 << 16, c01TopKey << 16}
 	for i, s := range bounds {
 		for _, e := range bounds[i:] {
-			offs = append(offs, [3]uint64{0, s, e}, [3]uint64{7 << 16, s, e})
+			offs = append(offs, [3]uint64{7 << 16, s, e})
+			if i == 0 {
+				offs = append(offs, [3]uint64{0, s, e})
+			}
 		}
 	}
 	flips := [][2]uint64{{0, 0}, {65535, 65536}, {65534, 65537}, {65536, 65536}, {131071, 131072}, {196607, 196609},
@@ -154,10 +180,11 @@ func c01MultiReads(c *vx.Check, keys []uint64, opts []c01Opt) {
 						min = c01MinimizeMulti(w, kind, prov, items, readByName[f.op])
 					}
 					sig := f.op + " how=" + f.how
-					key := "multi " + sig + " containers=" + c01MultiKeyDesc(min)
+					desc, nilSlot := c01MultiKeyDesc(kind, prov, min, f.op)
+					key := "multi " + sig + " containers=" + desc
 					if variant == "" {
 						base[sig] = true
-					} else if !base[sig] {
+					} else if !base[sig] && !nilSlot {
 						key += " " + variant
 					}
 					c.Violate(key, c01Case{Part: "multi-reads", Op: f.op, A: c01ItemsDesc(items), Variant: variant}, f.got, f.exp)
@@ -232,6 +259,10 @@ func c01MultiNary(c *vx.Check, maxOthers int, thorough bool) {
 			c01Opt{name: "r[1..65535]", sh: c01MakeShape("[1..65535]", c01Seq(65535, func(i int) int { return i + 1 })), enc: c01EncRun})
 	}
 	keys := []uint64{0, 1}
+	nprov := 2
+	if thorough {
+		nprov = 3
+	}
 	total := len(opts) * len(opts)
 	vx.ParallelFor(total*total, func(x int) {
 		w := &c01W{c: c}
@@ -239,7 +270,7 @@ func c01MultiNary(c *vx.Check, maxOthers int, thorough bool) {
 		items1 := c01MultiItems(keys, opts, c01Decode(x%total, len(opts), 2))
 		wa := c01ItemsWant(itemsA)
 		base := map[string]bool{}
-		for _, prov := range []int{c01ProvFresh, c01ProvMapped, c01ProvFrozen} {
+		for _, prov := range []int{c01ProvFresh, c01ProvMapped, c01ProvFrozen}[:nprov] {
 			prov := prov
 			mk := func() *Bitmap { return c01Build(0, itemsA, prov) }
 			if mk() == nil {
